@@ -53,6 +53,19 @@ pub struct OptChoice {
     pub tmo_s: u64,
 }
 
+/// Like `draw_options`, but now and then asks for a blksize just outside 8..=65464: a correct server
+/// does not acknowledge it (the run is then a non-transfer); one that does must still obey its OACK.
+pub fn draw_options_odd(d: &Draw, allow_big_w: bool) -> OptChoice {
+    let mut o = draw_options(d, allow_big_w, None);
+    if d.chance("swarm.blksize.out_of_range", 1, 16) {
+        let b = d.pick("swarm.blksize.odd", &[65465usize, 65500, 65503, 7, 100000]);
+        o.opts.retain(|(k, _)| k != "blksize");
+        o.opts.insert(0, ("blksize".into(), b.to_string()));
+        o.b = b.clamp(8, 65464);
+    }
+    o
+}
+
 pub fn draw_options(d: &Draw, allow_big_w: bool, len_hint: Option<usize>) -> OptChoice {
     let mut o = OptChoice { opts: vec![], b: 512, w: 1, tmo_s: 5 };
     if !d.chance("swarm.use_options", 4, 5) {
@@ -154,7 +167,7 @@ pub fn xfer(prop: &'static str, tier: Tier, w: &Arc<World>) -> Scn {
     let big_w = prop == "C08" || prop == "C01";
     let max_blocks: u64 = if tier == Tier::Thorough { 96 } else { 40 };
     // length is drawn after the options because its classes are relative to them
-    let oc0 = draw_options(&d, big_w, None);
+    let oc0 = if prop == "C01" { draw_options_odd(&d, big_w) } else { draw_options(&d, big_w, None) };
     let len = draw_len(&d, oc0.b, oc0.w, max_blocks, 1 << 20);
     let mut oc = oc0;
     for o in oc.opts.iter_mut() {
@@ -162,12 +175,21 @@ pub fn xfer(prop: &'static str, tier: Tier, w: &Arc<World>) -> Scn {
             o.1 = if kind == Kind::Upload { len.to_string() } else { "0".into() };
         }
     }
+    let mut xc_no_resend = false;
     let salt = 1 + d.range("swarm.content.salt", 250) as u64;
     let data = Arc::new(content(len, salt));
     let fname = "data.bin";
     let path = dir.join(fname);
     if kind == Kind::Download {
         std::fs::write(&path, &*data).expect("write served file");
+    } else if (prop == "C02" || prop == "C04") && d.chance("swarm.upload.overwrites_existing", 1, 4) {
+        // the target already exists (longer or shorter than the upload) and --overwrite is on
+        srv.overwrite = true;
+        // with --overwrite a retransmitted WRQ starts a second worker on the same path (known finding D6,
+        // C13's subject): this client does not retransmit its request and requests are not duplicated
+        xc_no_resend = true;
+        let old_len = d.pick("swarm.upload.old_len", &[len + 700, len / 2, len + 1, 3 * len + 5, 0]);
+        std::fs::write(&path, content(old_len, 91)).expect("write pre-existing target");
     }
 
     // peer configuration
@@ -180,6 +202,9 @@ pub fn xfer(prop: &'static str, tier: Tier, w: &Arc<World>) -> Scn {
     xc.eager_reack = d.chance("swarm.reader.eager_reack", 1, 4);
     xc.dally = !d.chance("swarm.reader.no_dally", 1, 4);
     xc.retries = 20;
+    if xc_no_resend {
+        xc.resend_request = false;
+    }
     let nblocks = (len / oc.b) as u32 + 1;
     let mut conformant = true;
 
@@ -237,8 +262,9 @@ pub fn xfer(prop: &'static str, tier: Tier, w: &Arc<World>) -> Scn {
             if d.chance("swarm.faultfree", 1, 10) {
                 faultfree = true;
             } else {
-                fc.fate_w = [24, 3, 2, 2, 1, 2];
-                fc.budget = 1 + d.range("swarm.fault.budget", budget_max);
+                // many isolated faults spread over a transfer must be survivable: the budget is per window
+                fc.fate_w = if d.chance("swarm.fault.sparse", 1, 2) { [60, 3, 2, 2, 1, 2] } else { [24, 3, 2, 2, 1, 2] };
+                fc.budget = 1 + d.range("swarm.fault.budget", 2 * budget_max);
                 fc.recv_err_w = if d.chance("swarm.fault.recv_err", 1, 4) { 40 } else { 0 };
                 fc.stall_w = if d.chance("swarm.fault.stall", 1, 5) { 10 } else { 0 };
                 fc.late_w = if d.chance("swarm.fault.lateness", 1, 3) { [2, 1, 1] } else { [1, 0, 0] };
@@ -264,6 +290,7 @@ pub fn xfer(prop: &'static str, tier: Tier, w: &Arc<World>) -> Scn {
                 }
                 _ => {
                     fc.fate_w = [30, 3, 2, 2, 0, 0];
+                    fc.spare_requests = true;
                     fc.budget = 1 + d.range("swarm.fault.budget", 3);
                 }
             }
@@ -300,6 +327,9 @@ pub fn xfer(prop: &'static str, tier: Tier, w: &Arc<World>) -> Scn {
         _ => {}
     }
 
+    if xc_no_resend {
+        fc.spare_requests = true;
+    }
     let desc = format!(
         "{:?} {} len={} blocks={} opts={:?} dup={} peer[timeout={}ms per_block={} gap_ack={} eager={} dally={} script={:?}] faults[budget={} fates={:?} recv_err={} stall={}]",
         kind,
